@@ -356,6 +356,7 @@ def diff_obs(impl, model, has_call):
     """differences between implementation and model observations of one update; has_call(mi) tells whether
     the implementation can make real calls for method mi"""
     diffs = []
+    impl_call_methods = set(int(k.split()[1]) for k in impl if k.startswith('call '))
     for k, v in impl.items():
         if k.startswith(IMPL_ONLY):
             continue
@@ -367,7 +368,8 @@ def diff_obs(impl, model, has_call):
         if k.startswith(MODEL_ONLY):
             continue
         if k.startswith('call '):
-            if not has_call(int(k.split()[1])):
+            mi = int(k.split()[1])
+            if not has_call(mi) or mi not in impl_call_methods:
                 continue
         if k not in impl:
             diffs.append((k, None, v))
